@@ -55,41 +55,43 @@ InternalMods(P, c) == Scanned(P, c) \cup UNION {Parents(m) : m \in Scanned(P, c)
 (* --------------------------------------------------------------- imports *)
 \* Absolute names may be written relative to module_path's parent directory when module_path # root_path
 AbsPrefix(P, c) == IF c.mpath = Root(P) THEN <<>> ELSE SubSeq(c.mpath, 1, Len(c.mpath) - 1)
-Adjust(P, c, t) == IF AbsPrefix(P, c) # <<>> /\ (AbsPrefix(P, c) \o t) \in Scanned(P, c)
-                   THEN AbsPrefix(P, c) \o t ELSE t
+\* (the operators ...In take the scanned set S and the prefix as arguments, so that TLC computes them once per scan)
+AdjustIn(S, pre, t) == IF pre # <<>> /\ (pre \o t) \in S THEN pre \o t ELSE t
+Adjust(P, c, t) == AdjustIn(Scanned(P, c), AbsPrefix(P, c), t)
 
-\* the package a statement's module part is resolved against
-FromBase(P, c, s) == IF s.level = 0 THEN Adjust(P, c, s.module)
-                     ELSE SubSeq(s.file, 1, Len(s.file) - s.level) \o s.module
 LevelOK(s) == s.level < Len(s.file)
 
 \* what one statement names.  must: the modules C02 says it names;  may: names the statement also accounts for
 \* ('from P import n' with P.n a module: P itself is accounted for, not required)
-Named(P, c, s) ==
-    LET M == Scanned(P, c) IN
+NamedIn(S, pre, s) ==
     IF s.form = "import"
-    THEN [must |-> {Adjust(P, c, s.module)}, may |-> {Adjust(P, c, s.module)}]
-    ELSE LET B == FromBase(P, c, s)
-             sub(n) == IF n # "*" /\ Append(B, n) \in M THEN Append(B, n) ELSE B
+    THEN [must |-> {AdjustIn(S, pre, s.module)}, may |-> {AdjustIn(S, pre, s.module)}]
+    ELSE LET B == IF s.level = 0 THEN AdjustIn(S, pre, s.module)          \* the package the module part is resolved against
+                  ELSE SubSeq(s.file, 1, Len(s.file) - s.level) \o s.module
+             sub(n) == IF n # "*" /\ Append(B, n) \in S THEN Append(B, n) ELSE B
          IN [must |-> {sub(s.names[i]) : i \in DOMAIN s.names},
              may  |-> {B} \cup {sub(s.names[i]) : i \in DOMAIN s.names}]
+Named(P, c, s) == NamedIn(Scanned(P, c), AbsPrefix(P, c), s)
 
-StmtsOf(P, c) == {s \in P.stmts : s.file \in VisibleFiles(P, c) /\ LevelOK(s)}
+StmtsOf(P, c) == LET V == VisibleFiles(P, c) IN {s \in P.stmts : s.file \in V /\ LevelOK(s)}
 
 \* imports between internal modules.  Imports of the importing file's own ancestor packages (and of itself) are
 \* outside C02's claim: never required, always accounted for.
 OwnAncestor(f, t) == Anc(t, f)
-MustImports(P, c) == UNION {{<<s.file, t>> : t \in {t \in Named(P, c, s).must : t \in InternalMods(P, c) /\ ~OwnAncestor(s.file, t)}}
-                               : s \in StmtsOf(P, c)}
-MayImports(P, c)  == UNION {{<<s.file, t>> : t \in {t \in Named(P, c, s).may : t \in InternalMods(P, c)}}
-                               : s \in StmtsOf(P, c)}
-                     \cup {e \in VisibleFiles(P, c) \X InternalMods(P, c) : StrictAnc(e[2], e[1])}
+MustImports(P, c) ==
+    LET S == Scanned(P, c)  pre == AbsPrefix(P, c)  M == InternalMods(P, c) IN
+    UNION {{<<s.file, t>> : t \in {t \in NamedIn(S, pre, s).must : t \in M /\ ~OwnAncestor(s.file, t)}} : s \in StmtsOf(P, c)}
+MayImports(P, c) ==
+    LET S == Scanned(P, c)  pre == AbsPrefix(P, c)  M == InternalMods(P, c) IN
+    UNION {{<<s.file, t>> : t \in {t \in NamedIn(S, pre, s).may : t \in M}} : s \in StmtsOf(P, c)}
+    \cup UNION {{<<f, a>> : a \in {a \in Parents(f) : a \in M}} : f \in VisibleFiles(P, c)}
 
 \* external targets: named by some statement, outside module_path's name space.  (A name inside that name space
 \* that is no scanned module - a dangling import, or the 'n' of 'from . import n' that is a function - is neither
 \* an internal module nor an external one: it contributes nothing.)
-ExternalNamed(P, c) == UNION {{<<s.file, t>> : t \in {t \in Named(P, c, s).must : t \notin InternalMods(P, c) /\ t # <<>> /\ ~Anc(c.mpath, t)}}
-                                 : s \in StmtsOf(P, c)}
+ExternalNamed(P, c) ==
+    LET S == Scanned(P, c)  pre == AbsPrefix(P, c)  M == InternalMods(P, c) IN
+    UNION {{<<s.file, t>> : t \in {t \in NamedIn(S, pre, s).must : t \notin M /\ t # <<>> /\ ~Anc(c.mpath, t)}} : s \in StmtsOf(P, c)}
 
 (* ---------------------------------------------------------- restrictions *)
 \* C04: scanning a sub directory = scanning the root and restricting to the sub tree
@@ -109,6 +111,6 @@ InternalPart(A, M) == [modules |-> A.modules \cap M,
                        imports |-> {e \in A.imports : e[1] \in M /\ e[2] \in M}]
 \* an external module is retained unless it or one of its ancestors is directly matched by an external exclusion
 Retained(c, t) == \A x \in Parents(t) \cup {t} : x \notin c.extexcl
-ExternalMods(P, c)    == UNION {Parents(e[2]) \cup {e[2]} : e \in {e \in ExternalNamed(P, c) : Retained(c, e[2])}}
 ExternalImports(P, c) == {e \in ExternalNamed(P, c) : Retained(c, e[2])}
+ExternalMods(P, c)    == UNION {Parents(e[2]) \cup {e[2]} : e \in ExternalImports(P, c)}
 =============================================================================
